@@ -35,7 +35,7 @@ func pickProfile(r *kit.Rng) profile {
 	if r.Chance(1, 3) {
 		p.keys = []uint32{1, 2}
 	}
-	switch r.Intn(11) {
+	switch r.Intn(12) {
 	case 0, 1, 2:
 		p.name = "contend"
 	case 3, 4:
@@ -67,6 +67,12 @@ func pickProfile(r *kit.Rng) profile {
 		p.name = "late-retry"
 		p.np, p.keys = 2, []uint32{1}
 		p.durs = []int{kit.Pick(r, []int{12, 20, 20, 40, 40, 60})}
+	case 11:
+		// the leader calls AcquireLeadership again for the key it leads and the insert fails with a
+		// storage error (before or after its effect); then another participant tries to acquire
+		p.name = "reacquire-insert-error"
+		p.np, p.keys = 2, []uint32{1}
+		p.durs = []int{kit.Pick(r, []int{4, 8, 20, 40})}
 	}
 	if p.durs == nil {
 		n := 1 + r.Intn(2)
@@ -220,6 +226,55 @@ func (p *profile) driveLateRetry(r *kit.Rng, e *exec, sc *scenario) {
 	}
 }
 
+// driveReacquire scripts the reacquire-insert-error family
+func (p *profile) driveReacquire(r *kit.Rng, e *exec, sc *scenario) {
+	do := func(c choice) bool {
+		if e.apply(c) {
+			sc.Script = append(sc.Script, c)
+			return true
+		}
+		return false
+	}
+	// finish lets every storage call of a thread through until the thread has none left
+	finish := func(t string) {
+		for n := 0; n < 20 && (do(choice{C: "eff", T: t, O: "ok"}) || do(choice{C: "ret", T: t})); n++ {
+		}
+	}
+	d := p.durs[0]
+	if !do(choice{C: "acq", P: 0, K: 1, V: 10, D: d}) {
+		return
+	}
+	finish("a0")
+	for n := r.Intn(3); n > 0 && len(e.lis) > 0; n-- {
+		do(choice{C: "adv"})
+		finish("g0")
+	}
+	if r.Chance(1, 3) {
+		do(choice{C: "adv", Ns: kit.Pick(r, []int64{1, 250e6, 1e9})})
+	}
+	// the failing re-acquisition
+	if do(choice{C: "acq", P: 0, K: 1, V: 10, D: d}) {
+		do(choice{C: "eff", T: "a0", O: kit.Pick(r, []string{"errb", "erra"})})
+		do(choice{C: "ret", T: "a0"})
+		finish("a0")
+	}
+	// the other participant
+	if do(choice{C: "acq", P: 1, K: 1, V: 11, D: d}) {
+		finish("a1")
+	}
+	for n := 0; n < 6 && e.err == nil; n++ {
+		if !do(choice{C: "adv"}) {
+			break
+		}
+		for _, l := range e.lis {
+			finish(fmt.Sprintf("g%d", l.id))
+		}
+		if r.Chance(1, 3) && do(choice{C: "acq", P: 1, K: 1, V: 11, D: d}) {
+			finish("a1")
+		}
+	}
+}
+
 // epilogue: let every held call through, let time pass timer by timer, clean everybody up and
 // let the longest leadership duration elapse, so that a context that is never cancelled shows
 func (e *exec) epilogue() {
@@ -305,6 +360,8 @@ func runScenario(sc *scenario, p *profile, r *kit.Rng) (kit.Case, error) {
 	}
 	if p != nil && p.name == "late-retry" {
 		p.driveLateRetry(r, e, sc)
+	} else if p != nil && p.name == "reacquire-insert-error" {
+		p.driveReacquire(r, e, sc)
 	} else if p != nil {
 		for n := 0; n < p.steps && e.err == nil; n++ {
 			c, ok := p.next(r, e)
